@@ -434,5 +434,32 @@ def step (t : TreeTable) (op : Op) (m : Mem) : Out × TreeTable × Mem × Nat :=
   | .foreachValue => ({ log := t.foreachValue }, t, m, 0)
   | .size => ({ val := some t.size }, t, m, 0)
 
+/-- a history; every call starts with its own allocator schedule (as the driver does) -/
+def run (t : TreeTable) : List (Op × List Bool) → Mem → List Out × List (Nat × Nat) × TreeTable × Mem
+  | [], m => ([], [], t, m)
+  | (op, sched) :: rest, m =>
+    let r := t.step cmp op (m.begin sched)
+    let rs := run r.2.1 rest r.2.2.1
+    (r.1 :: rs.1, (t.size, r.2.2.2) :: rs.2.1, rs.2.2)
+
+open Spec.OrdMap (IterOp) in
+/-- one iterator call, results in the same shape as the ideal cursor's -/
+def iterStep (t : TreeTable) (it : TreeIter) (op : IterOp) (m : Mem) : Out × TreeTable × TreeIter × Mem :=
+  match op with
+  | .next =>
+    let r := t.iterNext it
+    ({ st := some r.1, val := r.2.1.map (·.1), log := (r.2.1.map (fun e => [e.2])).getD [] }, t, r.2.2, m)
+  | .remove =>
+    let r := t.iterRemove cmp it m
+    ({ st := some r.1, val := r.2.1 }, r.2.2.1, r.2.2.2.1, r.2.2.2.2)
+
+open Spec.OrdMap (IterOp) in
+def iterRun (t : TreeTable) (it : TreeIter) : List IterOp → Mem → List Out × TreeTable × TreeIter × Mem
+  | [], m => ([], t, it, m)
+  | op :: rest, m =>
+    let r := t.iterStep cmp it op m
+    let rs := iterRun r.2.1 r.2.2.1 rest r.2.2.2
+    (r.1 :: rs.1, rs.2)
+
 end TreeTable
 end CC
